@@ -464,7 +464,7 @@ class Gen:
     def cond_expr(self, allow_last, depth=0):
         r = self.r
         k = r.random()
-        if depth < 1 and k < 0.2:
+        if depth < 2 and k < (0.3 if depth == 0 else 0.25):
             return {'k': 'bin', 'op': r.choice(['&&', '||']), 'l': self.cond_expr(allow_last, depth + 1), 'r': self.cond_expr(allow_last, depth + 1)}
         if k < 0.3 and self.bools:
             return {'k': 'var', 'name': self.bools[0]['name']}
@@ -604,6 +604,35 @@ class Gen:
         body = self.block(0, False, must_match_first=self.r.random() < 0.8, minlen=2)
         return {'outs': self.outs, 'hooks': self.hooks, 'fcodes': self.fcodes, 'ycodes': self.ycodes, 'macros': [], 'body': body,
                 'args': list(args)}
+
+
+def gen_cond_program(seed):
+    """small programs whose behaviour is decided by a nested boolean condition over 3 bool outputs (C06/C14):
+    the condition appears as a condition point (if with a consuming body) and as a conditional action"""
+    r = random.Random(seed)
+    outs = [{'name': 'b%d' % i, 'type': 'bool', 'default': None} for i in range(3)]
+    outs.append({'name': 'n0', 'type': 'int', 'signed': None, 'width': None, 'default': 0})
+
+    def atom():
+        k = r.random()
+        if k < 0.75:
+            return {'k': 'var', 'name': 'b%d' % r.randrange(3)}
+        if k < 0.85:
+            return {'k': 'not', 'e': {'k': 'var', 'name': 'b%d' % r.randrange(3)}}
+        return {'k': 'bin', 'op': r.choice(['==', '<', '!=']), 'l': {'k': 'last'}, 'r': {'k': 'chr', 'c': r.choice(b'abc')}}
+
+    def cond(d):
+        if d == 0 or r.random() < 0.2:
+            return atom()
+        return {'k': 'bin', 'op': r.choice(['&&', '||']), 'l': cond(d - 1), 'r': cond(d - 1)}
+    c1, c2 = cond(2), cond(2)
+    body = [{'t': 'match', 'm': {'k': 're', 'r': {'k': 'set', 'inv': False, 'items': [['ch', 97], ['ch', 98], ['ch', 99]]}, 'bin': False}},
+            {'t': 'if', 'br': [{'c': c1, 'b': [{'t': 'set', 'var': 'n0', 'e': {'k': 'num', 'v': 1}}]}], 'els': [{'t': 'set', 'var': 'n0', 'e': {'k': 'num', 'v': 2}}]},
+            {'t': 'match', 'm': {'k': 'str', 'bytes': [120]}},
+            {'t': 'if', 'br': [{'c': c2, 'b': [{'t': 'match', 'm': {'k': 'str', 'bytes': [121]}}]}], 'els': [{'t': 'match', 'm': {'k': 'str', 'bytes': [122]}}]},
+            {'t': 'match', 'm': {'k': 'str', 'bytes': [119]}}]
+    p = {'outs': outs, 'hooks': [], 'fcodes': [], 'ycodes': [], 'macros': [], 'body': body, 'args': []}
+    return p, spell_program(p)
 
 
 def generate(seed, features=None, args=(), **kw):
